@@ -9,6 +9,7 @@ package sched
 import (
 	"fmt"
 	"runtime"
+	"sort"
 	"strconv"
 	"strings"
 	"sync"
@@ -242,10 +243,28 @@ type Gate struct {
 	waiting map[string][]chan struct{}
 	held    map[string]bool // points at which arriving goroutines park
 	arrived []string
+	all     bool
 }
 
 func NewGate() *Gate {
 	return &Gate{waiting: map[string][]chan struct{}{}, held: map[string]bool{}}
+}
+
+// HoldAll makes every point a stopping point (controlled scheduling: the scheduler decides who goes on).
+func (g *Gate) HoldAll() { g.mu.Lock(); g.all = true; g.mu.Unlock() }
+
+// ParkedPoints returns the points at which goroutines are parked right now (sorted).
+func (g *Gate) ParkedPoints() []string {
+	g.mu.Lock()
+	defer g.mu.Unlock()
+	var out []string
+	for p, w := range g.waiting {
+		if len(w) > 0 {
+			out = append(out, p)
+		}
+	}
+	sort.Strings(out)
+	return out
 }
 
 // Hold makes point p a stopping point (default: all points pass freely).
@@ -257,7 +276,7 @@ func (g *Gate) Free(p string) { g.mu.Lock(); delete(g.held, p); g.mu.Unlock() }
 // Wait is called by the callback/hook; parks if p is held.
 func (g *Gate) Wait(p string) {
 	g.mu.Lock()
-	if !g.held[p] {
+	if !g.held[p] && !g.all {
 		g.mu.Unlock()
 		return
 	}
@@ -293,6 +312,7 @@ func (g *Gate) ReleaseAll() {
 	g.mu.Lock()
 	defer g.mu.Unlock()
 	g.held = map[string]bool{}
+	g.all = false
 	for p, w := range g.waiting {
 		for _, ch := range w {
 			close(ch)
